@@ -187,6 +187,31 @@ func keyAt(s *scanner.Scanner, consumed string, garbage int) string {
 				k += "|X:long"
 			}
 		}
+	case strings.HasPrefix(name, "stateRegex"):
+		// the regex oracle has memory too (is the next byte escaped?): an independent reading of
+		// the open lexeme's text is part of the state, or a state whose own escape tracking has
+		// gone wrong would be merged with the healthy one that has the same name
+		if t, part, ok := s.VerifOpenLexeme(); ok && t == scanner.TextBegin {
+			esc, closedAt := false, -1
+			for i := 1; i < len(part); i++ {
+				switch {
+				case esc:
+					esc = false
+				case part[i] == '\\':
+					esc = true
+				case part[i] == '/' && closedAt < 0:
+					closedAt = i
+				}
+			}
+			switch {
+			case closedAt >= 0:
+				k += "|rx:closed-inside"
+			case esc:
+				k += "|rx:esc"
+			default:
+				k += "|rx:-"
+			}
+		}
 	case name == "stateMultilineAnnotation":
 		if n := len(consumed); n > 0 && consumed[n-1] == '*' {
 			k += "|*"
@@ -545,13 +570,17 @@ func Explore(alpha []string, visit Visitor, maxStates int, expired func() bool) 
 						case r.Panic != "":
 							x.kind = -2
 							x.input = in
-						case r.Err != "":
-							x.kind = -1
-						case r.KeyAt == "":
-							x.kind = -3
-						default:
+						case r.KeyAt != "":
+							// the boundary was reached: this prefix is a state, even when the input is
+							// rejected AT its end (an open block comment, a regex without its closing
+							// slash, a TYPE still waiting for its body): the rejection belongs to the
+							// end-of-input transition, not to the prefix
 							x.key = r.KeyAt
 							x.input = in
+						case r.Err != "":
+							x.kind = -1
+						default:
+							x.kind = -3
 						}
 						rs[t] = x
 					}
@@ -650,7 +679,7 @@ func CrossCheck(g *Graph, expired func() bool) (compared int64, dis []Disagreeme
 					switch {
 					case r.Panic != "":
 						got = -2
-					case r.Err != "":
+					case r.KeyAt == "" && r.Err != "":
 						got = -1
 					case r.KeyAt == "":
 						got = -3
